@@ -207,8 +207,10 @@ def test_key(t):
     return hashlib.sha1(f"{t['ctx']}|{t.get('T')}|{t['tys']}|{t['vals']}|{rp(t['e'])}".encode()).hexdigest()
 
 def in_known_region(t):
-    """postfix ++/-- whose operand has type _Bool (known finding C01-bool-postfix-incdec)"""
-    return any(s[0] in ('POSTINC', 'POSTDEC') and t['tys'][s[1]] == 'bool' for s in subexprs(t['e']))
+    """known finding C01-bool-postfix-incdec: postfix ++/-- whose operand is a `_Bool` bit-field or `_Atomic _Bool`.
+    The generic generator only declares ordinary objects, so none of its tests lies in the region (a failing postfix
+    ++/-- on an ordinary `_Bool` is a plain violation); the region is exercised by `known_witness`."""
+    return False
 
 def is_nontrivial(t):
     """at least one operator, and some operand / target type is not plain int (what the test suite never exercises)"""
@@ -325,6 +327,8 @@ def run_tests(ctx, corr, tests, label, stop_on_violation=True):
     """evaluate with Spec, drop UB, compile+run both compilers, compare.  Returns number of violations found."""
     if not tests:
         return 0
+    for t in tests:      # a variable's initial value must be a value of its type
+        t['vals'] = [min(max(v, tmin(ty)), tmax(ty)) for v, ty in zip(t['vals'], t['tys'])]
     spec = ctx.driver('eval', ''.join(spec_line(t) + '\n' for t in tests)).splitlines()
     if len(spec) != len(tests):
         corr.disagreements.append({'kind': 'driver', 'note': f'drv_c01 eval answered {len(spec)} lines for {len(tests)} expressions'})
@@ -348,7 +352,18 @@ def run_tests(ctx, corr, tests, label, stop_on_violation=True):
     with ThreadPoolExecutor(max_workers=max(2, NPROC // 2)) as ex:
         futs = [ex.submit(run_batch, ctx, f'b{base + bi}', b, list(range(len(b)))) for bi, b in enumerate(batches)]
         results = [f.result() for f in futs]
-    for b, (rc_, ec, rg, eg) in zip(batches, results):
+    for bi, (b, (rc_, ec, rg, eg)) in enumerate(zip(batches, results)):
+        tries = 0
+        while rg is None and tries < 4 and len(b) > 1:
+            # gcc 12 has internal compiler errors on a few constant-foldable forms (e.g. `x % (_Bool)1`): that is no
+            # statement about chibicc or the Spec.  Drop the offending test (counted) and run the batch again.
+            bad = isolate(ctx, b, gcc=True)
+            corr.count('skipped_gcc_internal_error')
+            ctx.notes.append('gcc failed on: ' + describe(bad) + ' :: ' + str(eg)[:120])
+            b = [t for t in b if t is not bad]
+            batches[bi] = b
+            rc_, ec, rg, eg = run_batch(ctx, f'r{base + bi}_{tries}', b, list(range(len(b))))
+            tries += 1
         if rg is None:
             corr.disagreements.append({'kind': 'gcc', 'note': 'gcc rejected a generated program: ' + str(eg), 'first': describe(b[0])})
             continue
@@ -377,13 +392,7 @@ def run_tests(ctx, corr, tests, label, stop_on_violation=True):
             if c != want:
                 v = {'what': 'chibicc computes a value/type C11 does not prescribe (fields: value mod 2^64, sizeof, signed?, variables after)',
                      'input': describe(t), 'expected': want, 'got': c if c is not None else f'no output ({ec})', 'test': pack(t)}
-                if in_known_region(t):
-                    v['known_id'] = KNOWN_BOOL_POSTFIX
-                    corr.count('known:' + KNOWN_BOOL_POSTFIX)
-                    if len([x for x in corr.violations if x.get('known_id')]) >= 3:
-                        continue
-                else:
-                    found += 1
+                found += 1
                 corr.violations.append(v)
                 if found >= 5:
                     return found
@@ -397,12 +406,14 @@ def pack(t):
 def unpack(d):
     return {'ctx': d['ctx'], 'T': d.get('T'), 'tys': d['tys'], 'vals': d['vals'], 'e': parse_prefix(d['prefix'].split()), 'tag': 'replay'}
 
-def isolate(ctx, tests):
+def isolate(ctx, tests, gcc=False):
+    """one test of the batch the compiler (chibicc, or gcc) cannot compile"""
     lo = list(tests)
     while len(lo) > 1:
         half = lo[:len(lo) // 2]
-        rc_, ec, _, _ = run_batch(ctx, 'iso', half, list(range(len(half))))
-        lo = half if rc_ is None else lo[len(lo) // 2:]
+        rc_, ec, rg, eg = run_batch(ctx, 'iso', half, list(range(len(half))))
+        failed = (rg is None) if gcc else (rc_ is None)
+        lo = half if failed else lo[len(lo) // 2:]
     return lo[0]
 
 # ------------------------------------------------------------------ generators
@@ -424,6 +435,10 @@ def gen_depth1(ctx, K):
             for t2 in TYS:
                 b1, b2 = boundary(t1), boundary(t2)
                 pairs = set()
+                if ctx.thorough:           # exhaustive: every boundary value x every boundary value
+                    pairs = {(a, c) for a in b1 for c in b2}
+                    if op in ('shl', 'shr'):
+                        pairs |= {(a, c) for a in b1 for c in range(0, 65) if tmin(t2) <= c <= tmax(t2)}
                 for _ in range(K):
                     x = rng.random()
                     if op in ('shl', 'shr'):
@@ -740,6 +755,9 @@ def x86_specs():
         specs += [f'uop ND_NEG {t}', f'uop ND_BITNOT {t}']
     for t in TYS + ['ptr', 'enum']:
         specs += [f'uop ND_NOT {t}', f'tobool {t}']
+    for t in TYS + ['ptr', 'enum']:
+        specs += [f'load {t}', f'store {t}']
+    specs.append('push')
     cells = ['i8', 'i16', 'i32', 'i64', 'u8', 'u16', 'u32', 'u64', 'bool', 'enum', 'ptr']
     for a in cells:
         for b in cells:
@@ -758,11 +776,18 @@ def check_cpu(ctx, corr, nrand):
     asm = '  .text\n'
     for n, (s, t) in enumerate(live):
         body = '' if t == 'empty' else ''.join(l + '\n' for l in t.split(';;'))
-        asm += (f'seq_{n}:  # {s}\n  push %rbx\n  mov %rdi, %rbx\n  mov $1, %r11d\n  cmp $0, %r11d\n'
-                '  mov 0(%rbx), %rax\n  mov 16(%rbx), %rcx\n  mov 24(%rbx), %rdx\n  mov 8(%rbx), %rdi\n'
+        kind = s.split()[0]
+        setup = '  mov 0(%rbx), %rax\n'
+        if kind == 'load':
+            setup = '  lea 40(%rbx), %rax\n'
+        elif kind == 'store':
+            setup = '  lea 40(%rbx), %r11\n  push %r11\n  mov 0(%rbx), %rax\n'
+        asm += (f'seq_{n}:  # {s}\n  push %rbx\n  push %r12\n  mov %rdi, %rbx\n  mov $1, %r11d\n  cmp $0, %r11d\n'
+                '  mov 16(%rbx), %rcx\n  mov 24(%rbx), %rdx\n  mov 8(%rbx), %rdi\n' + setup + '  mov %rsp, %r12\n'
                 + body +
-                '  pushfq\n  pop %r11\n  mov %rax, 0(%rbx)\n  mov %rdi, 8(%rbx)\n  mov %rcx, 16(%rbx)\n  mov %rdx, 24(%rbx)\n'
-                '  mov %r11, 32(%rbx)\n  pop %rbx\n  ret\n')
+                '  pushfq\n  pop %r11\n  sub %rsp, %r12\n  mov %r12, 48(%rbx)\n  add %r12, %rsp\n'
+                '  mov %rax, 0(%rbx)\n  mov %rdi, 8(%rbx)\n  mov %rcx, 16(%rbx)\n  mov %rdx, 24(%rbx)\n'
+                '  mov %r11, 32(%rbx)\n' + ('  add $8, %rsp\n' if kind == 'store' else '') + '  pop %r12\n  pop %rbx\n  ret\n')
     asm += '  .data\n  .globl seq_table\nseq_table:\n' + ''.join(f'  .quad seq_{n}\n' for n in range(len(live)))
     asm += f'  .globl seq_count\nseq_count:\n  .quad {len(live)}\n  .section .note.GNU-stack,"",@progbits\n'
     spath = os.path.join(ctx.scratch, 'seqs.s')
@@ -775,21 +800,24 @@ def check_cpu(ctx, corr, nrand):
     cpu_in, drv_in, meta = '', '', []
     for n, (s, t) in enumerate(live):
         cases = []
-        two = s.startswith('op ')
+        kind = s.split()[0]
+        two = kind == 'op'
         pool = REGVALS
         for _ in range(nrand):
             a = rng.choice(pool) if rng.random() < 0.7 else rng.getrandbits(64)
             d = rng.choice(pool) if rng.random() < 0.7 else rng.getrandbits(rng.choice([3, 6, 31, 32, 64]))
-            cases.append((a, d if two else rng.getrandbits(64), rng.getrandbits(64), rng.getrandbits(64)))
+            q = rng.choice(pool) if rng.random() < 0.5 else rng.getrandbits(64)
+            cases.append((a, d if two else rng.getrandbits(64), rng.getrandbits(64), rng.getrandbits(64), q))
         if two:
             for a in (0, 1, 0x7fffffff, 0x80000000, 0xffffffff, 0x7fffffffffffffff, 0x8000000000000000, M64):
                 for d in (0, 1, 2, 31, 32, 63, 64, 0xffffffff, M64, 0x80000000, 0x8000000000000000):
-                    cases.append((a, d, 0x55, 0xaa))
+                    cases.append((a, d, 0x55, 0xaa, 0))
         else:
-            cases += [(a, 0x11, 0x22, 0x33) for a in REGVALS]
+            cases += [(a, 0x11, 0x22, 0x33, a ^ 0x5555555555555555) for a in REGVALS]
+            cases += [(0x77, 0x11, 0x22, 0x33, a) for a in REGVALS]
         for c in cases:
-            cpu_in += f'{n} {c[0]} {c[1]} {c[2]} {c[3]}\n'
-            drv_in += f'{s} | {c[0]} {c[1]} {c[2]} {c[3]}\n'
+            cpu_in += f'{n} {c[0]} {c[1]} {c[2]} {c[3]} {c[4]}\n'
+            drv_in += f'{s} | {c[0]} {c[1]} {c[2]} {c[3]} {c[4]}\n'
             meta.append((s, t, c))
     rc_, cpu, e = sh([exe], input=cpu_in, timeout=600)
     model = ctx.driver('x86exec', drv_in).splitlines()
@@ -799,16 +827,23 @@ def check_cpu(ctx, corr, nrand):
         return
     for (s, t, c), hw, md in zip(meta, cpu, model):
         corr.count('x86-cpu')
+        kind = s.split()[0]
         if md == 'fault' or hw == 'fault':
             ok = md == hw
         elif md.startswith('ok ') and hw.startswith('ok '):
             m, h = md.split()[1:], hw.split()[1:]
-            ok = m[:4] == h[:4] and (m[9] == '0' or m[4:9] == h[4:9])
+            # model: rax rdi rcx rdx zf sf cf of pf valid mem rsp      cpu: rax rdi rcx rdx zf sf cf of pf mem rspdelta
+            rsp0 = {'store': 0x2000, 'push': 0x2008}.get(kind, 0)
+            regs_m = [m[0], m[2], m[3]] if kind == 'store' else m[:4]       # the model's object address is symbolic
+            regs_h = [h[0], h[2], h[3]] if kind == 'store' else h[:4]
+            ok = (regs_m == regs_h and (m[9] == '0' or m[4:9] == h[4:9]) and m[10] == h[9]
+                  and (rsp0 - int(m[11])) % (1 << 64) == int(h[10]) % (1 << 64))
         else:
             ok = False
         if not ok:
-            corr.disagreements.append({'kind': 'x86', 'sequence': t, 'spec': s, 'rax_rdi_rcx_rdx': list(c), 'cpu': hw, 'model': md,
-                                       'note': 'Model/X86.lean disagrees with the host CPU (fields: rax rdi rcx rdx zf sf cf of pf [valid])'})
+            corr.disagreements.append({'kind': 'x86', 'sequence': t, 'spec': s, 'rax_rdi_rcx_rdx_mem': list(c), 'cpu': hw, 'model': md,
+                                       'note': 'Model/X86.lean disagrees with the host CPU (model fields: rax rdi rcx rdx zf sf cf of pf '
+                                               'valid mem rsp; cpu fields: rax rdi rcx rdx zf sf cf of pf mem rsp-delta)'})
             return
     corr.extra['x86_sequences_validated'] = len(live)
     corr.extra['x86_cases'] = len(meta)
@@ -829,11 +864,39 @@ def load_corpus():
     return tests
 
 def known_witness(ctx, corr):
-    """the listed witness of C01-bool-postfix-incdec: `_Bool b = 1; b++` must yield 1"""
-    t = {'ctx': 'val', 'tys': ['bool'], 'vals': [1], 'e': ('POSTINC', 0), 'tag': 'known'}
-    rc_, ec, rg, eg = run_batch(ctx, 'known', [t], [0])
-    if rc_ is not None and rc_.get(0) and rc_[0][0] != '1':
-        corr.known_hits.append(KNOWN_BOOL_POSTFIX)
+    """region of C01-bool-postfix-incdec: postfix ++/-- on a `_Bool` bit-field / `_Atomic _Bool` must yield the old value.
+    Reported as the known finding while it fails; other lines of the same program are ordinary checks."""
+    src = ('int printf(const char *, ...);\nstruct S { _Bool b : 1; int x; };\nint main(void) {\n'
+           '  struct S s = {1, 0}, z = {0, 0}; _Atomic _Bool a1 = 1, a0 = 0; _Bool p1 = 1, p0 = 0;\n'
+           '  _Bool r;\n'
+           '  r = s.b++; printf("bf++ %d %d\\n", r, s.b);\n  r = z.b--; printf("bf-- %d %d\\n", r, z.b);\n'
+           '  r = a1++; printf("at++ %d %d\\n", r, a1);\n  r = a0--; printf("at-- %d %d\\n", r, a0);\n'
+           '  r = p1++; printf("ob++ %d %d\\n", r, p1);\n  r = p0--; printf("ob-- %d %d\\n", r, p0);\n'
+           '  r = ++s.b; printf("++bf %d %d\\n", r, s.b);\n  r = --z.b; printf("--bf %d %d\\n", r, z.b);\n'
+           '  return 0;\n}\n')
+    want = {'bf++': '1 1', 'bf--': '0 1', 'at++': '1 1', 'at--': '0 1', 'ob++': '1 1', 'ob--': '0 1', '++bf': '1 1', '--bf': '0 0'}
+    path = os.path.join(ctx.scratch, 'known.c')
+    open(path, 'w').write(src)
+    exe = path + '.exe'
+    rc_, o, e = sh([ctx.cc, '-o', exe, path], timeout=60)
+    if rc_ != 0:
+        corr.violations.append({'what': 'chibicc fails on ++/-- of _Bool bit-field / _Atomic _Bool', 'input': src, 'expected': 'compiles', 'got': e[-300:]})
+        return
+    rc_, o, e = sh([exe], timeout=20)
+    got = {l.split()[0]: ' '.join(l.split()[1:]) for l in o.splitlines() if l.strip()}
+    corr.evaluations += len(want)
+    for k, w in want.items():
+        if got.get(k) == w:
+            continue
+        if k in ('bf++', 'bf--', 'at++', 'at--'):
+            corr.count('known:' + KNOWN_BOOL_POSTFIX)
+            if KNOWN_BOOL_POSTFIX not in corr.known_hits:
+                corr.known_hits.append(KNOWN_BOOL_POSTFIX)
+            corr.violations.append({'what': 'postfix ++/-- on a _Bool bit-field / _Atomic _Bool yields (value, stored) != C11',
+                                    'input': k + ' in: ' + src, 'expected': w, 'got': got.get(k), 'known_id': KNOWN_BOOL_POSTFIX})
+        else:
+            corr.violations.append({'what': '++/-- on a _Bool operand: (value, stored) differs from C11', 'input': k + ' in: ' + src,
+                                    'expected': w, 'got': got.get(k)})
 
 def correspond(ctx, corr):
     corr.rule = ('generated C expressions over _Bool/char/short/int/long (signed and unsigned), enum constants and enum objects: '
@@ -850,17 +913,17 @@ def correspond(ctx, corr):
     check_cpu(ctx, corr, 60 if not ctx.thorough else 1500)
     if corr.disagreements:
         return
-    K = 4 if not ctx.thorough else 48
+    K = 8 if not ctx.thorough else 16
     if run_tests(ctx, corr, load_corpus(), 'corpus'):
         return
     if run_tests(ctx, corr, gen_depth1(ctx, K), 'depth1'):
         return
-    if run_tests(ctx, corr, gen_contexts(ctx, 1 if not ctx.thorough else 12), 'context'):
+    if run_tests(ctx, corr, gen_contexts(ctx, 2 if not ctx.thorough else 12), 'context'):
         return
-    if run_tests(ctx, corr, gen_random(ctx, 2500 if not ctx.thorough else 120000), 'nest'):
+    if run_tests(ctx, corr, gen_random(ctx, 8000 if not ctx.thorough else 120000), 'nest'):
         return
-    run_pointers(ctx, corr, 1 if not ctx.thorough else 20)
-    corr.extra['exhaustive_subspace'] = 'operators x 9x9 operand type pairs (values sampled); cast pairs; instruction sequences of the model'
+    run_pointers(ctx, corr, 2 if not ctx.thorough else 20)
+    corr.extra['exhaustive_subspace'] = ('operators x 9x9 operand type pairs x ' + ('all boundary x boundary value pairs' if ctx.thorough else 'sampled boundary/random value pairs') + '; 81 cast pairs and 4 unary operators x all boundary values; every instruction sequence of the model on the CPU')
 
 def search(ctx, broken, corr):
     """a proof or a tie broke and the standard run saw no violation: push the end-to-end oracle harder"""
@@ -887,18 +950,23 @@ def replay(ctx, corr, path):
     print('replay:', 'still fails: ' + json.dumps(corr.violations[-1]['got']) if corr.violations else 'expression now has the C11 value and type')
 
 MANIFEST = {
-    'level_text': 'Lean 4 theorems for all operand values (2^64 register contents each): the regenerated get_common_type equals C11 '
-                  '6.3.1.8 on every pair of integer types and the add_type table gives the C11 result type for every operator; every '
-                  'integer cell of the regenerated cast table and the _Bool conversion turn a register representing v into one '
-                  'representing the C11-converted value; every emitted operator sequence (add/sub/imul/and/or/xor, cdq;idiv, cqo;idiv, '
-                  'mov $0,%edx;div, shl/shr/sar %cl, cmp+setcc+movzb for six relations signed and unsigned, neg, not, sete) computes '
-                  'the C11 result whenever C11 defines it.  Tied every run by translator (tables), asm-text equality of 1,300+ '
-                  'one-operator functions, CPU execution of every modelled sequence, and a three-way chibicc / Spec / gcc oracle '
-                  'on generated expression programs in every context.',
-    'level_note': 'The composition over arbitrary nesting (C01_value) and the parse.c rewritings (op=, ++/--, pointer scaling, '
-                  'argument/return conversion insertion) are not proved in Lean: they are covered by the end-to-end oracle (testing). '
+    'level_text': 'Lean 4 theorems, each for all operand values / all 2^64 register contents: the regenerated get_common_type equals '
+                  'C11 6.3.1.8 on every pair of the nine integer types (and enum, pointer arms) and the regenerated add_type table '
+                  'gives every operator the C11 operand conversions and result type (C01_common_type*, C01_op_type, C01_unop_type); '
+                  'every integer cell of the regenerated cast table and the _Bool conversion turn a register representing v into one '
+                  'representing the C11-converted value (C01_cast, 81 pairs); every emitted operator sequence - add/sub/imul/and/or/xor '
+                  'at 32/64 bits, cdq;idiv, cqo;idiv, mov $0,%edx;div, shl/shr/sar %cl, cmp+setcc+movzb for == != < <= signed and '
+                  'unsigned, neg, not, cmp;sete - runs without CPU fault and leaves the C11 result whenever C11 defines it '
+                  '(C01_binop, C01_shift, C01_unop, C01_unary_full, C01_lognot); sign/zero-extending loads and truncating stores '
+                  'against byte-addressed memory (C01_load, C01_store); postfix ++/-- value formula for every type except _Bool '
+                  '(C01_incdec_partial; _Bool bit-fields / _Atomic _Bool are known finding C01-bool-postfix-incdec with a kernel-checked witness).  Tied every run '
+                  'by translators (tables), asm-text equality of 1,458 one-operator functions with chibicc -S, CPU execution of every '
+                  'modelled sequence, and a three-way chibicc / Spec / gcc oracle on generated expression programs in every context.',
+    'level_note': 'Open: the composition over arbitrary nesting through the push/pop stack (C01_value_Statement; only the stack-free '
+                  'chains are proved) and the parse.c rewritings other than postfix ++/-- (op=, pointer scaling, argument/return/'
+                  'initializer conversion insertion) are not proved in Lean: they are covered by the end-to-end oracle (testing). '
                   'Trusted: Spec/IntSpec (validated against gcc), Model/X86 (validated against the CPU), Model/C01Codegen (asm text tie).',
-    'technique': 'Lean 4 bit-vector proofs (simp + omega, no bv_decide) over regenerated tables; whole-table decide; asm-text, CPU and '
-                 'three-way differential ties',
+    'technique': 'Lean 4 bit-vector proofs (simp + omega over toNat/toInt, no bv_decide/native_decide) over regenerated tables; '
+                 'whole-table decide; asm-text, CPU and three-way differential ties',
     'design_ref': 'DESIGN.md section 6, C01',
 }
